@@ -144,7 +144,7 @@ PY_TIE = {
  "C06": "the accept decision and the stopping rule of the rejection loop",
  "C08": "HvsrCurve._search_range_to_index_range (None is the only open end; nearest sample, upper end inclusive)",
  "C07": "the MiniShark gain/conversion scaling and the PEER orientation rule",
- "C18": "the orientation normalisation of SeismicRecording3C.__init__ and orient_sensor_to",
+ "C18": "the orientation normalisation of SeismicRecording3C.__init__ and orient_sensor_to, and the refusals and index selection of TimeSeries.trim (= the model's trimIdx)",
  "C10": "the window arithmetic of TimeSeries.split (interval count with the isclose/round recipe, samples per window, number of windows, refusal)",
  "C11": "the distribution pre/post transforms and _nth_std_factory",
  "C14": "the two distribution conversions of montecarlo_fn",
